@@ -53,6 +53,12 @@ type exInfo struct {
 	BigSkipped int                  `json:"fixtures_over_256k"`
 	Formats    []format             `json:"formats,omitempty"`
 	Companions []companion          `json:"companions,omitempty"`
+	Opened     map[string]bool      `json:"opened,omitempty"` // other paths the extractor asked its scan FS for while probing
+
+	bestPath    map[string]string    // fixture -> path class on which Extract likes it best
+	bestScore   map[string]int
+	openedBy    map[string][2]string // companion path -> <fixture, path> of the best scenario that read it
+	openedScore map[string]int
 }
 
 // format is one production path class of an extractor together with the fixture that the real
@@ -80,10 +86,69 @@ var companionTable = map[string][]companion{
 }
 
 const syntheticSeed = "synthetic:seed"
+const syntheticOSRelease = "synthetic:os-release"
+
+var osReleasePaths = []string{"etc/os-release", "usr/lib/os-release"}
+
+const osReleaseText = `PRETTY_NAME="Debian GNU/Linux 12 (bookworm)"
+NAME="Debian GNU/Linux"
+VERSION_ID="12"
+VERSION="12 (bookworm)"
+VERSION_CODENAME=bookworm
+ID=debian
+BUILD_ID=20240101
+HOME_URL="https://www.debian.org/"
+`
+
+// allCompanions: the files an extractor reads next to the one it requires, each with a valid seed:
+// the static table (files opened with os calls), os-release when the extractor was seen asking its
+// scan FS for it, and any other path it asked for, if one of its own fixtures has that name or
+// extension. Call after computeFormats.
+func allCompanions(inf *exInfo) (out []companion, noSeed []string) {
+	out = append(out, companionTable[inf.Name]...)
+	paths := []string{}
+	for p := range inf.Opened {
+		paths = append(paths, p)
+	}
+	sort.Strings(paths)
+	for _, p := range paths {
+		if c, ok := cleanRel(p); !ok || c != p {
+			continue // "../pom.xml": not a path of the scan FS
+		}
+		if p == osReleasePaths[0] || p == osReleasePaths[1] {
+			out = append(out, companion{Path: p, Fixture: syntheticOSRelease})
+			continue
+		}
+		seed := ""
+		for _, fx := range inf.Fixtures {
+			if filepath.Base(fx.Rel) == filepath.Base(p) && fx.Size > 0 {
+				seed = fx.Rel
+				break
+			}
+		}
+		if seed == "" {
+			for _, fx := range inf.Fixtures {
+				if filepath.Ext(fx.Rel) != "" && filepath.Ext(fx.Rel) == filepath.Ext(p) && fx.Size > 0 {
+					seed = fx.Rel
+					break
+				}
+			}
+		}
+		if seed == "" {
+			noSeed = append(noSeed, p)
+			continue
+		}
+		out = append(out, companion{Path: p, Fixture: seed})
+	}
+	return out, noSeed
+}
 
 func fixtureBytes(repo, rel string) ([]byte, error) {
 	if rel == syntheticSeed {
 		return []byte("name: seed\nversion: 1.0.0\n"), nil
+	}
+	if rel == syntheticOSRelease {
+		return []byte(osReleaseText), nil
 	}
 	return os.ReadFile(filepath.Join(repo, rel))
 }
